@@ -204,13 +204,46 @@ def gen_geometry(rng, m, ground):
     elif wires and rng.random() < 0.08 and wires[0]['nseg'] >= 6:
         a.extend(['--taper-wire', '%d,%d' % (wires[0]['etag'], rng.choice([1, 2, 3]))])
         m.features.append('taper')
-    if not ground and t not in ('arc', 'helix') and rng.random() < 0.15:
-        a.extend(['--geo-rotate', '1,%s,%s,%s' % (_g(rng.choice([0, 30])), _g(rng.choice([0, 45])), _g(rng.choice([10, 90])))])
-        m.features.append('rotate')
-    if t not in ('arc', 'helix') and rng.random() < 0.1:
-        a.extend(['--geo-translate', '2,%s,%s,0' % (_g(rng.choice([1, -3])), _g(rng.choice([0, 2])))])
-        m.features.append('translate')
+    gen_transforms(rng, m, a, ground, t)
     m.argv_geo = a
+
+
+def gen_transforms(rng, m, a, ground, t):
+    """0..3 further geometry transformations.  Sort keys are drawn from a
+    small set so that ties between a rotation and a translation occur (the
+    program then has to order them itself), per-tag and whole-structure
+    forms are mixed.  Over ground only motions that keep z are used."""
+    if rng.random() > 0.3:
+        return
+    n = rng.choice([1, 2, 2, 3])
+    keys = [rng.choice([1, 1, 2, 3]) for _ in range(n)]
+    if n >= 2 and rng.random() < 0.5:
+        keys[1] = keys[0]                      # forced key tie
+        m.features.append('transform_key_tie')
+    kinds = ['rotate', 'translate']
+    rng.shuffle(kinds)
+    for i in range(n):
+        kind = kinds[i % 2] if i < 2 else rng.choice(['rotate', 'translate', 'scale'])
+        tag = ''
+        if m.geo and rng.random() < 0.25 and not ground:
+            tag = ',%d' % rng.choice(m.geo)['etag']
+        if kind == 'rotate':
+            if ground:
+                v = '%s,0,0,%s' % (_g(keys[i]), _g(rng.choice([10, 45, 90, 200])))
+            else:
+                v = '%s,%s,%s,%s' % (_g(keys[i]), _g(rng.choice([0, 30, 90])), _g(rng.choice([0, 45])),
+                                      _g(rng.choice([10, 90, 135])))
+            a.extend(['--geo-rotate', v + tag])
+            m.features.append('rotate')
+        elif kind == 'translate':
+            z = 0 if ground else rng.choice([0, 0, 2, -1.5])
+            v = '%s,%s,%s,%s' % (_g(keys[i]), _g(rng.choice([1, -3, 7.5])), _g(rng.choice([0, 2, -4])), _g(z))
+            a.extend(['--geo-translate', v + tag])
+            m.features.append('translate')
+        elif not ground and t not in ('helix',):
+            a.extend(['--geo-scale', _g(rng.choice([0.5, 2.0, 3.0])) + tag])
+            m.features.append('scale')
+
 
 
 def gen_env(rng, m, env):
@@ -380,6 +413,63 @@ def gen_model(rng, env=None, kinds=None):
     return m
 
 
+def variant_model(rng, m):
+    """A sibling of model m: the same antenna with one small change.  Worlds
+    that run siblings at the *same* frequencies in one interpreter are what
+    shows state kept outside a single object (module-level caches keyed too
+    coarsely)."""
+    import copy
+    v = copy.deepcopy(m)
+    how = rng.choice(['scale', 'scale', 'same', 'load_value', 'voltage', 'translate', 'rotate', 'drop_loads'])
+    ground = m.env != 'free'
+    if how == 'scale':
+        have = [i for i, x in enumerate(v.argv_geo) if x == '--geo-scale']
+        if have:
+            i = have[0]
+            if rng.random() < 0.5:
+                del v.argv_geo[i:i + 2]
+            else:
+                v.argv_geo[i + 1] = _g(rng.choice([0.5, 3.0, 4.0]))
+        elif not ground:
+            v.argv_geo += ['--geo-scale', _g(rng.choice([2.0, 3.0, 0.5]))]
+        else:
+            how = 'voltage'
+    if how == 'load_value':
+        done = False
+        for i, x in enumerate(v.argv_load):
+            if x.startswith('--load='):
+                v.argv_load[i] = '--load=%s' % rng.choice(['75+10j', '1-1j'])
+                done = True
+                break
+            if x.startswith('--skin-effect-conductivity='):
+                rest = x.split('=', 1)[1].split(',')
+                rest[0] = _g(float(rest[0]) * 10)
+                v.argv_load[i] = '--skin-effect-conductivity=' + ','.join(rest)
+                done = True
+                break
+            if x.startswith('--insulation-load='):
+                rest = x.split('=', 1)[1].split(',')
+                rest[1] = _g(float(rest[1]) + 1.5)
+                v.argv_load[i] = '--insulation-load=' + ','.join(rest)
+                done = True
+                break
+        if not done:
+            how = 'voltage'
+    if how == 'voltage':
+        n = sum(1 for x in v.argv_src if x.startswith('--excitation-pulse'))
+        v.argv_src = [x for x in v.argv_src if not x.startswith('--excitation-voltage')]
+        v.argv_src += ['--excitation-voltage=%s' % rng.choice(['3', '1-2j'])] * max(n, 1)
+    elif how == 'translate' and not ground:
+        v.argv_geo += ['--geo-translate', '5,%s,0,%s' % (_g(rng.choice([1, 4])), _g(rng.choice([0, 2])))]
+    elif how == 'rotate' and not ground:
+        v.argv_geo += ['--geo-rotate', '5,0,%s,%s' % (_g(rng.choice([0, 20])), _g(rng.choice([15, 90])))]
+    elif how == 'drop_loads':
+        v.argv_load = []
+        v.skin_sigma = []
+    v.features = list(v.features) + ['variant_' + how]
+    return v
+
+
 # --------------------------------------------------------------- frequencies
 
 def gen_pool(rng, m, k=None):
@@ -544,16 +634,18 @@ def gen_api_ops(rng, npool, nfar, nnear, maxops):
     return ops
 
 
-def gen_api_task(rng, maxops=24, env=None, kinds=None, model=None):
+def gen_api_task(rng, maxops=24, env=None, kinds=None, model=None, pool=None):
     m = model or gen_model(rng, env=env, kinds=kinds)
-    pool, probes = gen_pool(rng, m)
+    probes = []
+    if pool is None:
+        pool, probes = gen_pool(rng, m)
     fars = [gen_far(rng) for _ in range(rng.choice([1, 1, 2, 3]))]
     nears = [gen_near(rng, m) for _ in range(rng.choice([0, 1, 1, 2]))]
     ops = gen_api_ops(rng, len(pool), len(fars), len(nears), maxops)
     return dict(kind='api', builder='cli', argv=m.argv(), pool=pool, fars=fars,
                 nears=nears, ops=ops, template=m.template, env=m.env,
                 features=sorted(set(m.features)), probes=probes,
-                npulses=m.min_pulses() + 2 * len(m.geo))
+                npulses=m.min_pulses() + 2 * len(m.geo), _model=m)
 
 
 # ------------------------------------------------------------------ CLI task
@@ -604,12 +696,30 @@ BAD_ARGVS = [
 ]
 
 
-def gen_cli_task(rng, maxops=8, env=None, kinds=None):
+def gen_cli_task(rng, maxops=8, env=None, kinds=None, model=None, pool=None):
     ops = []
-    models = [gen_model(rng, env=env, kinds=kinds) for _ in range(rng.choice([1, 1, 2]))]
+    if model is not None:
+        models = [model]
+    else:
+        models = [gen_model(rng, env=env, kinds=kinds)]
+    pools = {}
+    if pool is not None:
+        pools[0] = (list(pool), [])
+    if rng.random() < 0.4:
+        if rng.random() < 0.6:
+            # a sibling command line at the same frequencies
+            models.append(variant_model(rng, models[0]))
+            pools[1] = 'same'
+        else:
+            models.append(gen_model(rng, env=env, kinds=kinds))
     cmds = []
     for i, m in enumerate(models):
-        pool, probes = gen_pool(rng, m, k=2)
+        if pools.get(i) == 'same':
+            pool, probes = list(cmds[0]['pool']), []
+        elif i in pools:
+            pool, probes = pools[i]
+        else:
+            pool, probes = gen_pool(rng, m, k=2)
         fa = field_args(rng, m)
         argv = ['-f', repr(pool[0])] + m.argv() + fa
         if rng.random() < 0.7:
@@ -659,7 +769,7 @@ def gen_cli_task(rng, maxops=8, env=None, kinds=None):
         for _ in range(max(0, 2 - n)):
             ops.insert(rng.randrange(len(ops) + 1), ['RUN', c['argv']])
     ops.append(['RUN', cmds[0]['argv']])
-    return dict(kind='cli', ops=[_copy_op(o) for o in ops],
+    return dict(kind='cli', _model=models[0], pool=list(cmds[0]['pool']), ops=[_copy_op(o) for o in ops],
                 template='+'.join(c['model'].template for c in cmds),
                 env='+'.join(c['model'].env for c in cmds),
                 features=sorted(feats), probes=probes,
@@ -707,14 +817,27 @@ def gen_plan(run_seed, tier='quick', env=None, kinds=None, shape=None):
     elif shape == 'api+cli' and env is None and rng.random() < 0.2:
         shape = 'direct+cli'
     shared = rng.choice(['shared_ideal', 'shared_ideal', 'ideal'])
+    siblings = rng.random() < 0.5
+    first = None
     for kind in shape.split('+'):
+        model = pool = None
+        if siblings and first is not None and first.get('_model') is not None:
+            # a sibling of the first task's model, at the same frequencies
+            model = variant_model(rng, first['_model'])
+            pool = list(first['pool'])
         if kind == 'direct':
             g = shared if rng.random() < 0.8 else rng.choice([None, 'ideal'])
-            tasks.append(gen_direct_task(rng, ground=g, maxops=maxops))
+            t = gen_direct_task(rng, ground=g, maxops=maxops)
         elif kind == 'api':
-            tasks.append(gen_api_task(rng, maxops=maxops, env=env, kinds=kinds))
+            t = gen_api_task(rng, maxops=maxops, env=env, kinds=kinds, model=model, pool=pool)
         else:
-            tasks.append(gen_cli_task(rng, maxops=8 if tier == 'quick' else 14, env=env, kinds=kinds))
+            t = gen_cli_task(rng, maxops=8 if tier == 'quick' else 14, env=env, kinds=kinds,
+                             model=model, pool=pool)
+        if first is None:
+            first = t
+        tasks.append(t)
+    for t in tasks:
+        t.pop('_model', None)
     # schedule: seeded interleaving; switches are forced right after SET_F
     # and right after a FAR/NEAR of another task with probability 1/2
     remaining = [len(t['ops']) for t in tasks]
